@@ -1,6 +1,7 @@
 package main
 
 import (
+	"strings"
 	"fmt"
 )
 
@@ -114,7 +115,11 @@ func implPredicate(prop string, c *EvalCase, o *Out) string {
 			if x.tag() == 5 {
 				logs++
 				if x.at(2).tag() == 50 {
-					return "log line that names no known problem: " + x.String()
+					// not the wording the strict parser knows: the line must still name a flag of the case and a recognisable problem
+					knownFlagKeys = flagKeysOf(c)
+					if cl := coarseLog(x); strings.HasPrefix(cl, "?:") || strings.HasSuffix(cl, ":unknown") {
+						return "log line that names no known flag or no recognisable problem: " + x.String()
+					}
 				}
 			}
 		}
